@@ -290,6 +290,44 @@ def check_map_node(ctx, i):
     ctx.case({"form": "node", "s": gen.shape_of(outer), "mode": mode, "lens": [len(inputs[p]) for p in sub["map"]["over"]], "err": err, "bad": len(bad_vals), "two": two_level}, len(combos) >= 2, sample=case if i < 3 else None)
 
 
+def check_raise_order(ctx, i):
+    """Raise mode with SEVERAL failing items in flight at once and the later one finishing first (every completion
+    order the scheduler can produce, concurrency limits None/2/3): the error that propagates is the one of the first
+    failing item IN INPUT ORDER, whichever failed first in time."""
+    rng = ctx.rng
+    n = rng.randint(2, 5)
+    items = [f"it{j}" for j in range(n)]
+    bad = sorted(rng.sample(range(n), rng.randint(2, n)))
+    excs = {items[j]: ItemBoom(f"item {j} failed") for j in bad}
+    inner = {"name": "ro", "nodes": [{"k": "fn", "name": "work", "fid": "ro/work", "params": [{"n": "x"}], "outs": ["y"], "async": True}], "bind": {}}
+    if rng.random() < 0.5:
+        inner["nodes"].append({"k": "fn", "name": "post", "fid": "ro/post", "params": [{"n": "y"}], "outs": ["z"], "async": rng.random() < 0.5})
+    via_node = rng.random() < 0.4
+    case = {"form": "raise order", "items": items, "bad": bad, "via_node": via_node, "inner": inner}
+    for mc, pol in ((None, "last"), (2, "last"), (3, "last"), (None, "rand"), (2, "rand")):
+        rt.reset_program()
+        if via_node:
+            spec = {"name": "outer", "nodes": [{"k": "sub", "name": "ro", "prog": inner, "map": {"over": ["x"], "mode": "zip", "err": "raise"}}], "bind": {}}
+            built = build_program(spec)
+            kw = {}
+        else:
+            built = build_program(inner)
+            kw = {"map_over": "x"}
+        rt.FAIL_IF.clear()
+        rt.FAIL_IF["ro/work"] = FailOn("x", excs)
+        o = core.execute(built, {"x": list(items)}, "async", sched=rt.Sched(default=pol, rng=rng), max_concurrency=mc, warm=False, **kw)
+        rt.FAIL_IF.clear()
+        ctx.obs["map_calls"] += 1
+        ctx.obs["raise_order_calls"] += 1
+        if o.deadlock or o.inconclusive:
+            ctx.inconc(o.inconclusive or "deadlock in map")
+            continue
+        want = excs[items[bad[0]]]
+        if o.exc is not want:
+            ctx.violation("C10:raise-not-first-failing-item", f"async/k={mc}/{pol}{' (mapping node)' if via_node else ''}: items {bad} fail; raise mode surfaced {o.exc!r}, the first failing item in input order raised {want!r}", {**case, "max_concurrency": mc, "policy": pol})
+    ctx.case({"form": "raise-order", "n": n, "bad": bad, "node": via_node}, True)
+
+
 def check_node_clone(ctx, i):
     """clone on a mapping NODE: a broadcast input is shared or deep-copied per item as configured, while a value
     bound on the inner graph always reaches the function as the bound object itself (bind bypasses clone)."""
@@ -459,11 +497,15 @@ def run(ctx):
             check_runner_map(ctx, i)
         elif r in (2, 3):
             check_map_node(ctx, i)
-        elif i % 10 == 4:
-            check_node_clone(ctx, i)
-        elif i % 20 == 9:
-            check_mapped_inner_default(ctx, i)
-        elif i % 20 == 19:
-            check_map_missing_input(ctx, i)
         else:
-            check_nested_map(ctx, i)
+            sub = (i // 5) % 6
+            if sub in (0, 3):
+                check_node_clone(ctx, i)
+            elif sub == 1:
+                check_mapped_inner_default(ctx, i)
+            elif sub == 2:
+                check_map_missing_input(ctx, i)
+            elif sub == 4:
+                check_raise_order(ctx, i)
+            else:
+                check_nested_map(ctx, i)
